@@ -152,7 +152,6 @@ def part_wa(chk, thorough):
         # cases on which the WebAssembly build itself stops (C01's open findings) cannot be compared by output
         a, bb = kernel.val(c["a"], c["signed"]), kernel.val(c["b"], c["signed"])
         return c["kind"] == "arith" and c["op"] in ("/", "%") and c["signed"] and a == -(1 << (c["w"] - 1)) and bb == -1
-    cs = [c for c in cs if not traps(c)]
     batches = list(common.chunks(cs, 2500))
     d = common.subdir("c02w")
 
@@ -194,7 +193,7 @@ def run(chk):
     thorough = chk.tier == "thorough"
     chk.assume("integer subset: the hub's numeric, conversion, memory and constant cases (no floating point, no control-flow cases beyond calls) and the integer kernel programs; "
                "a WebAssembly trap corresponds to abnormal termination of the executable; trapping cases are run one per function (three in thorough), each in its own executable; "
-               "kernel cases on which the WebAssembly build itself stops (signed MIN / -1, C01's finding) are left out of the program comparison")
+               "the two builds are compared with each other and with the specification")
     part_wat(chk, thorough)
     part_wa(chk, thorough)
     chk.cov["exhaustive"] = True
